@@ -626,7 +626,10 @@ impl TcpConnection {
                                     ?error,
                                     "failed to register substream open failure to protocol"
                                 );
-                            })?;
+                            })
+                            // The protocol has shut down. The connection stays usable for the
+                            // other protocols, so this is not a reason to stop the event loop.
+                            .ok();
                     }
                     _ => {}
                 }
@@ -665,7 +668,11 @@ impl TcpConnection {
                             ?error,
                             "failed to register opened substream to protocol",
                         );
-                    })?;
+                    })
+                    // The protocol has shut down and the substream is dropped. Exiting the event
+                    // loop here would end the connection without reporting it closed to the other
+                    // protocols and to the transport manager.
+                    .ok();
             }
         }
 
